@@ -1,6 +1,7 @@
 package pvbft
 
 import (
+	"crypto/sha512"
 	"encoding/json"
 	"fmt"
 	"math"
@@ -53,6 +54,17 @@ type c40Case struct {
 	// further chain configurations generated (by the real GenesisChainConfig, in the same process)
 	// AFTER the case's configuration was built and first used, while it is still in force
 	Later []c40Later `json:"later,omitempty"`
+	// other previous blocks whose selection the same process evaluates between two evaluations of
+	// the case's block: siblings (same height and block root, other proposer / VRF value), blocks of
+	// other heights, blocks with another root
+	Sib []c40Sib `json:"sib,omitempty"`
+}
+
+type c40Sib struct {
+	Kind     string `json:"kind"` // sibling | height | root
+	Proposer uint32 `json:"proposer"`
+	Vrf      ev.B   `json:"vrf,omitempty"`
+	Delta    uint32 `json:"delta,omitempty"`
 }
 
 type c40Later struct {
@@ -166,6 +178,16 @@ func genC40(t *rapid.T) c40Case {
 		c.Seed = genSeed64().Draw(t, "rawseed")
 	}
 	c.Index2 = rapid.Uint32Range(0, 50).Draw(t, "index2")
+	if c.Route == "build" {
+		ns := rapid.SampledFrom([]int{0, 1, 1, 2, 3}).Draw(t, "nsib")
+		for i := 0; i < ns; i++ {
+			sb := c40Sib{Kind: rapid.SampledFrom([]string{"sibling", "sibling", "sibling", "height", "root"}).Draw(t, "sibkind"),
+				Proposer: rapid.OneOf(rapid.Just(c.Proposer), rapid.Uint32Range(0, 40)).Draw(t, "sibproposer"),
+				Delta:    rapid.Uint32Range(1, 3).Draw(t, "sibdelta")}
+			sb.Vrf = rapid.OneOf(rapid.Just([]byte(c.Vrf)), rapid.SliceOfN(rapid.Byte(), 0, 4), rapid.SliceOfN(rapid.Byte(), 64, 64)).Draw(t, "sibvrf")
+			c.Sib = append(c.Sib, sb)
+		}
+	}
 	nl := rapid.SampledFrom([]int{0, 1, 1, 2, 3}).Draw(t, "nlater")
 	for i := 0; i < nl; i++ {
 		l := c40Later{Height: rapid.OneOf(rapid.Uint32Range(0, 3), rapid.Uint32()).Draw(t, "lheight")}
@@ -290,8 +312,25 @@ func selectC40(ctx *ev.Ctx, c c40Case, cfg *vconfig.ChainConfig, index uint32) s
 		if p := ev.Catch(func() { pc, err = srv.VerifBuildParticipantConfig(c.BlkNum, prevBlockC40(c), cfg) }); p != "" {
 			ctx.Failf("buildParticipantConfig panicked (N=%d C=%d table %d entries): %s", cfg.N, cfg.C, len(cfg.PosTable), p)
 		}
+		// the seed of this very block, computed by the harness from the block's own fields
+		ref := refSeedC40(c)
+		var got vconfig.VRFValue
+		if p := ev.Catch(func() { got = vbft.VerifGetParticipantSelectionSeed(prevBlockC40(c)) }); p != "" {
+			ctx.Failf("getParticipantSelectionSeed panicked: %s", p)
+		}
+		if got != ref {
+			ctx.Failf("selection seed of the block (height %d, proposer %d, vrf %x, root %x) is %x..., but double SHA-512 over (block_num, prev_block_proposer, block_root, vrf_value) of that block is %x...",
+				c.BlkNum-1, c.Proposer, []byte(c.Vrf), clipB8(c.BRoot), got[:8], ref[:8])
+		}
+		// what the three selection calls give for the reference seed
+		c2 := c
+		c2.Route, c2.Seed = "direct", ref[:]
+		exp := selectC40(ctx, c2, cfg, index)
 		if err != nil {
 			sel.Err = err.Error()
+			if exp.Err == "" {
+				ctx.Failf("buildParticipantConfig fails (%v) although the reference seed of the block yields a full selection %+v", err, exp)
+			}
 			return sel
 		}
 		if pc == nil {
@@ -300,7 +339,14 @@ func selectC40(ctx *ev.Ctx, c c40Case, cfg *vconfig.ChainConfig, index uint32) s
 		if pc.BlockNum != c.BlkNum {
 			ctx.Failf("participant config is for block %d, asked for %d", pc.BlockNum, c.BlkNum)
 		}
-		return selection{P: pc.Proposers, E: pc.Endorsers, Cm: pc.Committers}
+		if pc.Vrf != ref {
+			ctx.Failf("participant config of block %d (previous proposer %d) carries seed %x..., the block's own seed is %x...", c.BlkNum, c.Proposer, pc.Vrf[:8], ref[:8])
+		}
+		sel = selection{P: pc.Proposers, E: pc.Endorsers, Cm: pc.Committers}
+		if exp.Err != "" || !reflect.DeepEqual(sel, exp) {
+			ctx.Failf("buildParticipantConfig selects %+v, the block's own seed yields %+v", sel, exp)
+		}
+		return sel
 	}
 	// direct: the three calls with a raw seed
 	var seed vconfig.VRFValue
@@ -410,6 +456,31 @@ func runC40(ctx *ev.Ctx, c c40Case) {
 	if len(c.Later) > 0 {
 		ctx.Label(fmt.Sprintf("later-configs:%d", len(c.Later)))
 	}
+	// ... and evaluates the selection after OTHER candidate blocks (each judged against its own
+	// reference seed inside selectC40)
+	if c.Route == "build" {
+		for _, sb := range c.Sib {
+			y := c
+			y.Proposer, y.Vrf = sb.Proposer, sb.Vrf
+			switch sb.Kind {
+			case "height":
+				y.BlkNum = c.BlkNum + sb.Delta
+				if y.BlkNum < c.BlkNum {
+					y.BlkNum = c.BlkNum - sb.Delta
+				}
+			case "root":
+				y.BRoot = append(ev.B{}, c.BRoot...)
+				if len(y.BRoot) > 0 {
+					y.BRoot[int(sb.Delta)%len(y.BRoot)] ^= 0x40
+				}
+			}
+			if y.BlkNum == 0 {
+				continue
+			}
+			selectC40(ctx, y, cfg, 1)
+			ctx.Label("other-block:" + sb.Kind)
+		}
+	}
 	// ... and A is still in force: same object again, a node holding the decoded copy, and a node
 	// that builds A afresh must all agree with the first selection
 	a2 := selectC40(ctx, c, cfg, 1)
@@ -472,6 +543,33 @@ func runC40(ctx *ev.Ctx, c c40Case) {
 	}
 }
 
+func clipB8(b []byte) []byte {
+	if len(b) > 8 {
+		return b[:8]
+	}
+	return b
+}
+
+// refSeedC40: the participant selection seed of the case's previous block, written from the
+// protocol: SHA-512(SHA-512(json{block_num, prev_block_proposer, block_root, vrf_value})) where
+// block_num is the number of the block being decided and the other fields are the previous block's.
+func refSeedC40(c c40Case) vconfig.VRFValue {
+	var root [32]byte
+	copy(root[:], c.BRoot)
+	vrf := append([]byte(nil), c.Vrf...) // as in the block built by prevBlockC40: absent value = JSON null
+	data, err := json.Marshal(struct {
+		BlockNum          uint32   `json:"block_num"`
+		PrevBlockProposer uint32   `json:"prev_block_proposer"`
+		BlockRoot         [32]byte `json:"block_root"`
+		VrfValue          []byte   `json:"vrf_value"`
+	}{c.BlkNum, c.Proposer, root, vrf})
+	if err != nil {
+		panic(err)
+	}
+	t := sha512.Sum512(data)
+	return vconfig.VRFValue(sha512.Sum512(t[:]))
+}
+
 func clipU(l []uint32) []uint32 {
 	if len(l) > 40 {
 		return l[:40]
@@ -490,7 +588,7 @@ func TestC40(t *testing.T) {
 	ev.Drive(t, "C40",
 		"cases: N=1..40 peers with governance indexes 1..N, dense from an arbitrary base (around 64, 2^16, 2^31, top of range) or sparse arbitrary 32-bit values; C in {N/3 as GenesisChainConfig computes, (N-1)/3, smaller}; position table from the real GenesisChainConfig or an arbitrary (skewed / incomplete) table; "+
 			"seed through the real getParticipantSelectionSeed of a generated previous block (buildParticipantConfig) or a raw 64-byte seed (uniform, constant, single-bit, low-entropy) fed to calcParticipantPeers. "+
-			"histories: after the configuration was built and first used, 0..3 further chain configurations (same/smaller/larger pools, other heights) are generated in the same process, then the selection is repeated on the same object, on a JSON-decoded copy and on a freshly built configuration: all must agree and the table must still hold only its own peers. "+
+			"histories: between two evaluations of the case's block the same process evaluates 0..3 other previous blocks (siblings of equal height and root with another proposer / VRF value, other heights, other roots), each judged against the harness's own seed (double SHA-512 over block_num, proposer, root, vrf) and the selection that seed yields; after the configuration was built and first used, 0..3 further chain configurations (same/smaller/larger pools, other heights) are generated in the same process, then the selection is repeated on the same object, on a JSON-decoded copy and on a freshly built configuration: all must agree and the table must still hold only its own peers. "+
 			"non-trivial: a selection was produced (no error) with C>=1, so minimum sizes, duplicate freedom and the exclusion of the leading proposers are all constraining; distinct by JSON encoding of the case",
 		genC40, runC40)
 }
